@@ -280,6 +280,15 @@ func VerifC14_Hooks() {
 		rt.Reach("hooks-put")
 		return
 	}
+	// the stored record may be expired or (shadow-)deleted: the hooks still
+	// see what was loaded, and may replace it
+	storedState := rt.Choice("storedstate", 3)
+	switch storedState {
+	case 1:
+		seed.Meta().Expires = time.Now().Unix() - 10
+	case 2:
+		seed.Meta().Deleted = time.Now().Unix() - 10
+	}
 	got, err := iface.Get("t:a/x")
 	wantCalls := 0
 	if rt.All(active, h.pre) {
@@ -294,6 +303,8 @@ func VerifC14_Hooks() {
 	if rt.Any(preVeto, postVeto) {
 		rt.Assert(errors.Is(err, errVeto), "hooks/get-veto-returns-hook-error")
 		rt.Assert(got == nil, "hooks/get-veto-returns-no-record")
+	} else if storedState != 0 && !rt.All(active, h.post, h.replace != nil) {
+		rt.Assert(errors.Is(err, ErrNotFound), "hooks/get-invalid-record-not-found")
 	} else {
 		rt.Assert(err == nil, "hooks/get-ok")
 		if rt.All(active, h.post, h.replace != nil) {
